@@ -88,6 +88,10 @@ def run(ctx, config='rel-all'):
     from .. import runner
     from . import c12
     c12.run(runner.Sub(ctx, 'R9', 'C12', only={'O2', 'R1', 'R3', 'R4', 'R8'}), config)     # not the zero fill (R6) / trait defaults (R5): they do not move or size blocks
+    # ---- R13 every body that can write the finger / chunk list is one the obligations above have seen (no store hides in a
+    # destructor or closure that only runs while unwinding)
+    from . import unwindstate
+    unwindstate.check(ctx, ctx.db(config), A, 'R13')
     # ---- R10 the crate's own clients of the arena keep the allocation contract
     from . import clients
     clients.check(ctx, config, 'R10')
